@@ -11,14 +11,561 @@ def eraseKV (ml : MatchList) : MatchList := ml.map fun m => { m with key := none
 /-- The same environment with the dry-run option flipped. -/
 def flipDry (env : Env) : Env := { env with dryrun := !env.dryrun }
 
+/-! ### Helper lemmas for `eval_dryrun_same`: everything the evaluator reads from the match list is
+insensitive to `eraseKV`; two runs from lists equal up to `eraseKV` stay equal up to `eraseKV`. -/
+namespace Insp
+
+def erase1 (m : Match) : Match := { m with key := none, val := none }
+
+theorem eraseKV_map (ml : MatchList) : eraseKV ml = ml.map erase1 := rfl
+@[simp] theorem erase1_idem (m : Match) : erase1 (erase1 m) = erase1 m := rfl
+@[simp] theorem erase1_ty (m : Match) : (erase1 m).ty = m.ty := rfl
+@[simp] theorem erase1_subs (m : Match) : (erase1 m).subs = m.subs := rfl
+@[simp] theorem erase1_maildir (m : Match) : (erase1 m).maildir = m.maildir := rfl
+@[simp] theorem erase1_subdir (m : Match) : (erase1 m).subdir = m.subdir := rfl
+@[simp] theorem eraseKV_nil : eraseKV [] = [] := rfl
+@[simp] theorem eraseKV_cons (m : Match) (ml : MatchList) : eraseKV (m :: ml) = erase1 m :: eraseKV ml := rfl
+@[simp] theorem eraseKV_append (a b : MatchList) : eraseKV (a ++ b) = eraseKV a ++ eraseKV b := by
+  simp [eraseKV_map]
+@[simp] theorem eraseKV_idem (ml : MatchList) : eraseKV (eraseKV ml) = eraseKV ml := by
+  simp [eraseKV_map]
+theorem eraseKV_length (ml : MatchList) : (eraseKV ml).length = ml.length := by simp [eraseKV_map]
+theorem eraseKV_take (ml : MatchList) (n : Nat) : eraseKV (ml.take n) = (eraseKV ml).take n := by
+  simp [eraseKV_map]
+theorem eraseKV_dropLast (ml : MatchList) : eraseKV ml.dropLast = (eraseKV ml).dropLast := by
+  simp [eraseKV_map]
+theorem eraseKV_getLast? (ml : MatchList) : (eraseKV ml).getLast? = ml.getLast?.map erase1 := by
+  simp [eraseKV_map]
+theorem eraseKV_reverse (ml : MatchList) : eraseKV ml.reverse = (eraseKV ml).reverse := by
+  simp [eraseKV_map]
+
+theorem matchesFind_erase (ml : MatchList) (t : MType) :
+    matchesFind (eraseKV ml) t = (matchesFind ml t).map erase1 := by
+  induction ml with
+  | nil => rfl
+  | cons m r ih =>
+    simp only [matchesFind, eraseKV_cons, List.find?_cons, erase1_ty] at ih ⊢
+    split <;> simp [ih]
+
+theorem eraseKV_filter_ty (ml : MatchList) (p : MType → Bool) :
+    (eraseKV ml).filter (fun m => p m.ty) = eraseKV (ml.filter (fun m => p m.ty)) := by
+  induction ml with
+  | nil => rfl
+  | cons m r ih =>
+    simp only [eraseKV_cons, List.filter_cons, erase1_ty]
+    by_cases h : p m.ty = true <;> simp [h, ih]
+
+theorem matchesRemove_erase (ml : MatchList) (t : MType) :
+    matchesRemove (eraseKV ml) t = (eraseKV (matchesRemove ml t).1, (matchesRemove ml t).2) := by
+  unfold matchesRemove
+  simp only
+  rw [eraseKV_filter_ty ml (fun ty => ty != t), eraseKV_filter_ty _ (fun ty => ty.isAction), eraseKV_length]
+
+theorem removeFirst_erase (ml : MatchList) (t : MType) :
+    removeFirst (eraseKV ml) t = eraseKV (removeFirst ml t) := by
+  induction ml with
+  | nil => rfl
+  | cons m r ih =>
+    simp only [removeFirst, eraseKV_cons, erase1_ty]
+    by_cases h : (m.ty == t) = true
+    · simp only [h, ↓reduceIte]
+    · simp only [h, Bool.false_eq_true, ↓reduceIte, ih, eraseKV_cons]
+
+theorem matchesMerge_erase (ml : MatchList) (mh : Match) :
+    matchesMerge (eraseKV ml) (erase1 mh) = (eraseKV (matchesMerge ml mh).1, erase1 (matchesMerge ml mh).2) := by
+  unfold matchesMerge
+  simp only [erase1_ty, eraseKV_getLast?, matchesFind_erase, removeFirst_erase]
+  by_cases h1 : (mh.ty != .move && mh.ty != .flag) = true
+  · simp only [h1, ↓reduceIte]
+  · simp only [h1, Bool.false_eq_true, ↓reduceIte]
+    cases ml.getLast? with
+    | none => rfl
+    | some last =>
+      simp only [Option.map_some, erase1_ty]
+      by_cases h2 : (last.ty == mh.ty) = true
+      · simp only [h2, ↓reduceIte, eraseKV_dropLast]
+      · simp only [h2, Bool.false_eq_true, ↓reduceIte]
+        by_cases h3 : (mh.ty == .move) = true
+        · simp only [h3, ↓reduceIte]
+          cases matchesFind ml .flag with
+          | none => rfl
+          | some dup => rfl
+        · simp only [h3, Bool.false_eq_true, ↓reduceIte]
+          cases matchesFind ml .move with
+          | none => rfl
+          | some dup => rfl
+
+theorem matchesAppend_erase (env : Env) (ml : MatchList) (mh : Match) :
+    matchesAppend env (eraseKV ml) (erase1 mh) = (eraseKV (matchesAppend env ml mh).1, (matchesAppend env ml mh).2) := by
+  unfold matchesAppend
+  rw [matchesMerge_erase]
+  generalize matchesMerge ml mh = r
+  obtain ⟨ml1, mh1⟩ := r
+  obtain ⟨ty, lno, part, maildir, subdir, path, subs, key, val, argv, strings, hkey, hval, pat, es, eb⟩ := mh1
+  dsimp only [erase1]
+  by_cases h1 : (!ty.isPath) = true
+  · simp only [h1, ↓reduceIte, eraseKV_append, eraseKV_cons, eraseKV_nil]; rfl
+  · simp only [h1, Bool.false_eq_true, ↓reduceIte]
+    generalize (if maildir.isEmpty = true then pathslice env.path PATH_MAX 0 (-2) else some maildir) = md
+    cases md with
+    | none => simp only [eraseKV_append, eraseKV_cons, eraseKV_nil]; rfl
+    | some maildir =>
+      dsimp only
+      generalize (if subdir.isEmpty = true then pathslice env.path NAME_MAX1 (-2) (-2) else some subdir) = sd
+      cases sd with
+      | none => simp only [eraseKV_append, eraseKV_cons, eraseKV_nil]; rfl
+      | some subdir =>
+        dsimp only
+        cases pathjoin PATH_MAX maildir subdir with
+        | none => simp only [eraseKV_append, eraseKV_cons, eraseKV_nil]; rfl
+        | some p => simp only [eraseKV_append, eraseKV_cons, eraseKV_nil]; rfl
+
+theorem eraseKV_findIdx_ty (ml : MatchList) (p : MType → Bool) :
+    (eraseKV ml).findIdx? (fun m => p m.ty) = ml.findIdx? (fun m => p m.ty) := by
+  induction ml with
+  | nil => rfl
+  | cons m r ih => simp only [eraseKV_cons, List.findIdx?_cons, erase1_ty, ih]
+
+theorem eraseKV_getElem? (ml : MatchList) (i : Nat) : (eraseKV ml)[i]? = ml[i]?.map erase1 := by
+  simp [eraseKV_map]
+
+theorem matchBackref_erase (b : MatchList) (br : Backref) :
+    matchBackref (eraseKV b) br = matchBackref b br := by
+  unfold matchBackref
+  simp only [← eraseKV_reverse]
+  rw [eraseKV_findIdx_ty b.reverse (fun ty => ty == .mtch)]
+  cases List.findIdx? (fun m => m.ty == MType.mtch) b.reverse with
+  | none => rfl
+  | some k =>
+    simp only [← eraseKV_take, ← eraseKV_reverse]
+    rw [eraseKV_filter_ty _ (fun ty => ty.isInterp), eraseKV_getElem?]
+    cases (List.filter (fun m => m.ty.isInterp) (List.take k b.reverse).reverse)[br.mi]? with
+    | none => rfl
+    | some mi => rfl
+
+theorem interpolate_go_erase (b : MatchList) (macros : Option (List (Bytes × Bytes))) (fuel : Nat) (s out : Bytes) :
+    interpolate.go (eraseKV b) macros fuel s out = interpolate.go b macros fuel s out := by
+  induction fuel generalizing s out with
+  | zero => simp only [interpolate.go]
+  | succ n ih =>
+    unfold interpolate.go
+    cases s with
+    | nil => rfl
+    | cons c r =>
+      simp only [matchBackref_erase, ih]
+
+theorem interpolate_erase (b : MatchList) (macros : Option (List (Bytes × Bytes))) (s : Bytes) :
+    interpolate (eraseKV b) macros s = interpolate b macros s := by
+  unfold interpolate; exact interpolate_go_erase ..
+
+/-- Two environments that differ at most in the dry-run option. -/
+structure EnvAgree (e1 e2 : Env) : Prop where
+  rx : e1.rx = e2.rx
+  command : e1.command = e2.command
+  isDir : e1.isDir = e2.isDir
+  now : e1.now = e2.now
+  strptime : e1.strptime = e2.strptime
+  zoneName : e1.zoneName = e2.zoneName
+  fileTime : e1.fileTime = e2.fileTime
+  path : e1.path = e2.path
+
+def Sim (st st' : St) : Prop := eraseKV st.ml = eraseKV st'.ml ∧ st.flags = st'.flags
+def RSim (r r' : Tri × St) : Prop := r.1 = r'.1 ∧ Sim r.2 r'.2
+
+theorem matchesAppend_env {e1 e2 : Env} (h : e1.path = e2.path) (ml : MatchList) (mh : Match) :
+    matchesAppend e1 ml mh = matchesAppend e2 ml mh := by
+  unfold matchesAppend; rw [h]
+
+theorem matchesAppend_congr {e1 e2 : Env} (ha : EnvAgree e1 e2) {ml ml' : MatchList} (h : eraseKV ml = eraseKV ml')
+    (mh : Match) :
+    eraseKV (matchesAppend e1 ml mh).1 = eraseKV (matchesAppend e2 ml' mh).1 ∧
+      (matchesAppend e1 ml mh).2 = (matchesAppend e2 ml' mh).2 := by
+  have h1 := matchesAppend_erase e1 ml mh
+  have h2 := matchesAppend_erase e2 ml' mh
+  rw [h, matchesAppend_env ha.path] at h1
+  rw [h1] at h2
+  injection h2 with h3 h4
+  exact ⟨h3, h4⟩
+
+theorem matchesFind_isSome_congr {ml ml' : MatchList} (h : eraseKV ml = eraseKV ml') (t : MType) :
+    (matchesFind ml t).isSome = (matchesFind ml' t).isSome := by
+  have h1 := matchesFind_erase ml t
+  have h2 := matchesFind_erase ml' t
+  rw [h, h2] at h1
+  have := congrArg Option.isSome h1
+  simpa using this.symm
+
+theorem matchesRemove_congr {ml ml' : MatchList} (h : eraseKV ml = eraseKV ml') (t : MType) :
+    eraseKV (matchesRemove ml t).1 = eraseKV (matchesRemove ml' t).1 ∧ (matchesRemove ml t).2 = (matchesRemove ml' t).2 := by
+  have h1 := matchesRemove_erase ml t
+  have h2 := matchesRemove_erase ml' t
+  rw [h, h2] at h1
+  injection h1 with h3 h4
+  exact ⟨h3.symm, h4.symm⟩
+
+theorem interpolate_congr {b b' : MatchList} (h : eraseKV b = eraseKV b') (macros : Option (List (Bytes × Bytes))) (s : Bytes) :
+    interpolate b macros s = interpolate b' macros s := by
+  rw [← interpolate_erase b, ← interpolate_erase b', h]
+
+theorem length_congr {ml ml' : MatchList} (h : eraseKV ml = eraseKV ml') : ml.length = ml'.length := by
+  rw [← eraseKV_length ml, ← eraseKV_length ml', h]
+
+theorem dropLast_congr {ml ml' : MatchList} (h : eraseKV ml = eraseKV ml') : eraseKV ml.dropLast = eraseKV ml'.dropLast := by
+  rw [eraseKV_dropLast, eraseKV_dropLast, h]
+
+theorem take_congr {ml ml' : MatchList} (h : eraseKV ml = eraseKV ml') (n : Nat) : eraseKV (ml.take n) = eraseKV (ml'.take n) := by
+  rw [eraseKV_take, eraseKV_take, h]
+
+theorem eraseKV_setLast (ml : MatchList) (f : Match → Match) (hf : ∀ m, erase1 (f m) = erase1 m) :
+    eraseKV (ml.dropLast ++ (ml.getLast?.map f).toList) = eraseKV ml := by
+  rcases List.eq_nil_or_concat ml with h | ⟨l, a, h⟩
+  · subst h; rfl
+  · subst h; simp [hf]
+
+theorem exprAppend_sim {e1 e2 : Env} (ha : EnvAgree e1 e2) (mh : Match) {st st' : St} (h : Sim st st') (ok : Tri) :
+    RSim (exprAppend e1 mh st ok) (exprAppend e2 mh st' ok) := by
+  unfold exprAppend
+  have := matchesAppend_congr ha h.1 mh
+  refine ⟨?_, ?_, h.2⟩
+  · simp only [this.2]
+  · exact this.1
+
+theorem exprRegexec_sim {e1 e2 : Env} (ha : EnvAgree e1 e2) (ty : MType) (lno part : Nat) (p : Pat) (key val : Bytes)
+    {st st' : St} (h : Sim st st') :
+    RSim (exprRegexec e1 ty lno part p key val st) (exprRegexec e2 ty lno part p key val st') := by
+  unfold exprRegexec
+  rw [ha.rx]
+  rcases e2.rx p val with _ | _ | groups
+  · exact ⟨rfl, h⟩
+  · exact ⟨rfl, h⟩
+  ·
+    dsimp only
+    have hc := matchesAppend_congr ha h.1
+      { ty := ty, lno := lno, part := part, subs := matchCopy p val groups, pat := some p }
+    generalize matchesAppend e1 st.ml _ = r1 at hc
+    generalize matchesAppend e2 st'.ml _ = r2 at hc
+    obtain ⟨ml1, f1⟩ := r1
+    obtain ⟨ml2, f2⟩ := r2
+    obtain ⟨hc1, hc2⟩ := hc
+    dsimp only at hc1 hc2 ⊢
+    subst hc2
+    have hs : ∀ (l : MatchList), eraseKV (l.dropLast ++ (l.getLast?.map fun m => { m with key := some key, val := some val }).toList) = eraseKV l :=
+      fun l => eraseKV_setLast l _ (fun _ => rfl)
+    cases f1 with
+    | true => exact ⟨rfl, hc1, h.2⟩
+    | false =>
+      cases e1.dryrun <;> cases e2.dryrun <;> refine ⟨rfl, ?_, h.2⟩ <;> simp only [Bool.false_eq_true, ↓reduceIte, hs, hc1]
+
+theorem rsim_cases {r r' : Tri × St} (h : RSim r r') :
+    ∃ ev st1 st1', r = (ev, st1) ∧ r' = (ev, st1') ∧ Sim st1 st1' := by
+  obtain ⟨ev, st1⟩ := r
+  obtain ⟨ev', st1'⟩ := r'
+  obtain ⟨h1, h2⟩ := h
+  dsimp only at h1
+  subst h1
+  exact ⟨_, _, _, rfl, rfl, h2⟩
+
+theorem loop_sim {e1 e2 : Env} (root : Msg) (e : Expr)
+    (ih : ∀ (part : Nat) (m : Msg) (st st' : St), Sim st st' → RSim (eval e1 root e part m st) (eval e2 root e part m st'))
+    (part : Nat) (ps : List Msg) :
+    ∀ (i : Nat) (st st' : St), Sim st st' → RSim (eval.loop e1 root e part ps i st) (eval.loop e2 root e part ps i st') := by
+  induction ps with
+  | nil => intro i st st' h; simp only [eval.loop]; exact ⟨rfl, h⟩
+  | cons p rest ihp =>
+    intro i st st' h
+    simp only [eval.loop]
+    obtain ⟨ev, s1, s1', h1, h2, hs⟩ := rsim_cases (ih (if part == 0 then i + 1 else part) p st st' h)
+    rw [h1, h2]
+    cases ev
+    · exact ⟨rfl, hs⟩
+    · exact ihp (i + 1) s1 s1' hs
+    · exact ⟨rfl, hs⟩
+
+theorem loopB_sim {e1 e2 : Env} (root : Msg) (e : Expr)
+    (ih : ∀ (part : Nat) (m : Msg) (st st' : St), Sim st st' → RSim (eval e1 root e part m st) (eval e2 root e part m st'))
+    (part : Nat) (ps : List Msg) :
+    ∀ (i : Nat) (ev : Tri) (st st' : St), Sim st st' →
+      RSim (eval.loopB e1 root e part ps i ev st) (eval.loopB e2 root e part ps i ev st') := by
+  induction ps with
+  | nil => intro i ev st st' h; simp only [eval.loopB]; exact ⟨rfl, h⟩
+  | cons p rest ihp =>
+    intro i ev0 st st' h
+    simp only [eval.loopB]
+    obtain ⟨ev, s1, s1', h1, h2, hs⟩ := rsim_cases (ih (if part == 0 then i + 1 else part) p st st' h)
+    rw [h1, h2]
+    cases ev
+    · exact ihp (i + 1) .match s1 s1' hs
+    · exact ihp (i + 1) ev0 s1 s1' hs
+    · exact ⟨rfl, hs⟩
+
+def ORSim : Option (Tri × St) → Option (Tri × St) → Prop
+  | none, none => True
+  | some r, some r' => RSim r r'
+  | _, _ => False
+
+theorem values_sim {e1 e2 : Env} (ha : EnvAgree e1 e2) (lno : Nat) (p : Pat) (part : Nat) (k : Bytes) (vs : List Bytes) :
+    ∀ (st st' : St), Sim st st' →
+      ORSim (eval.keys.values e1 lno p part k vs st) (eval.keys.values e2 lno p part k vs st') := by
+  induction vs with
+  | nil => intro st st' h; simp only [eval.keys.values]; trivial
+  | cons v more ihv =>
+    intro st st' h
+    simp only [eval.keys.values]
+    obtain ⟨ev, s1, s1', h1, h2, hs⟩ := rsim_cases (exprRegexec_sim ha .header lno part p k v h)
+    rw [h1, h2]
+    cases ev
+    · exact ⟨rfl, hs⟩
+    · exact ihv s1 s1' hs
+    · exact ⟨rfl, hs⟩
+
+theorem keys_sim {e1 e2 : Env} (ha : EnvAgree e1 e2) (lno : Nat) (p : Pat) (part : Nat) (m : Msg) (ks : List Bytes) :
+    ∀ (st st' : St), Sim st st' →
+      RSim (eval.keys e1 lno p part m ks st) (eval.keys e2 lno p part m ks st') := by
+  induction ks with
+  | nil => intro st st' h; simp only [eval.keys]; exact ⟨rfl, h⟩
+  | cons k rest ihk =>
+    intro st st' h
+    simp only [eval.keys]
+    cases getHeader m k with
+    | none => exact ihk st st' h
+    | some vals =>
+      dsimp only
+      have hv := values_sim ha lno p part k vals st st' h
+      generalize eval.keys.values e1 lno p part k vals st = o1 at hv
+      generalize eval.keys.values e2 lno p part k vals st' = o2 at hv
+      cases o1 <;> cases o2
+      · exact ihk st st' h
+      · exact hv.elim
+      · exact hv.elim
+      · exact hv
+
+theorem eval_sim {e1 e2 : Env} (ha : EnvAgree e1 e2) (root : Msg) (e : Expr) :
+    ∀ (part : Nat) (m : Msg) (st st' : St), Sim st st' →
+      RSim (eval e1 root e part m st) (eval e2 root e part m st') := by
+  induction e with
+  | block lno e ih =>
+    intro part m st st' h
+    simp only [eval]
+    obtain ⟨ev, s1, s1', h1, h2, hs⟩ := rsim_cases (ih part m st st' h)
+    rw [h1, h2]
+    have hpost : ∀ ev : Tri, RSim
+        (if (matchesFind s1.ml .brk).isSome then
+          (Tri.nomatch, { s1 with ml := (matchesRemove s1.ml .brk).1 })
+        else if (matchesFind s1.ml .pass).isSome then
+          (if (matchesRemove s1.ml .pass).2 == 0 then Tri.nomatch else Tri.match, { s1 with ml := (matchesRemove s1.ml .pass).1 })
+        else (ev, s1))
+        (if (matchesFind s1'.ml .brk).isSome then
+          (Tri.nomatch, { s1' with ml := (matchesRemove s1'.ml .brk).1 })
+        else if (matchesFind s1'.ml .pass).isSome then
+          (if (matchesRemove s1'.ml .pass).2 == 0 then Tri.nomatch else Tri.match, { s1' with ml := (matchesRemove s1'.ml .pass).1 })
+        else (ev, s1')) := by
+      intro ev
+      rw [matchesFind_isSome_congr hs.1 .brk, matchesFind_isSome_congr hs.1 .pass]
+      by_cases hb : (matchesFind s1'.ml .brk).isSome = true
+      · simp only [hb, ↓reduceIte]
+        exact ⟨rfl, (matchesRemove_congr hs.1 .brk).1, hs.2⟩
+      · simp only [hb, Bool.false_eq_true, ↓reduceIte]
+        by_cases hp : (matchesFind s1'.ml .pass).isSome = true
+        · simp only [hp, ↓reduceIte]
+          refine ⟨?_, (matchesRemove_congr hs.1 .pass).1, hs.2⟩
+          simp only [(matchesRemove_congr hs.1 .pass).2]
+        · simp only [hp, Bool.false_eq_true, ↓reduceIte]
+          exact ⟨rfl, hs⟩
+    cases ev
+    · exact hpost .match
+    · exact hpost .nomatch
+    · exact ⟨rfl, hs⟩
+  | and lno l r ihl ihr =>
+    intro part m st st' h
+    simp only [eval]
+    obtain ⟨ev, s1, s1', h1, h2, hs⟩ := rsim_cases (ihl part m st st' h)
+    rw [h1, h2]
+    cases ev
+    · exact ihr part m s1 s1' hs
+    · exact ⟨rfl, hs⟩
+    · exact ⟨rfl, hs⟩
+  | or lno l r ihl ihr =>
+    intro part m st st' h
+    simp only [eval]
+    obtain ⟨ev, s1, s1', h1, h2, hs⟩ := rsim_cases (ihl part m st st' h)
+    rw [h1, h2]
+    cases ev
+    · exact ⟨rfl, hs⟩
+    · exact ihr part m s1 s1' hs
+    · exact ⟨rfl, hs⟩
+  | neg lno e ih =>
+    intro part m st st' h
+    simp only [eval]
+    obtain ⟨ev, s1, s1', h1, h2, hs⟩ := rsim_cases (ih part m st st' h)
+    rw [h1, h2, length_congr h.1]
+    cases ev
+    · exact ⟨rfl, take_congr hs.1 _, hs.2⟩
+    · exact ⟨rfl, hs⟩
+    · exact ⟨rfl, hs⟩
+  | mtch lno c rhs ihc ihr =>
+    intro part m st st' h
+    simp only [eval]
+    have hc := matchesAppend_congr ha h.1 { ty := .mtch, lno := lno, part := part }
+    generalize matchesAppend e1 st.ml _ = r1 at hc
+    generalize matchesAppend e2 st'.ml _ = r2 at hc
+    obtain ⟨ml1, f1⟩ := r1
+    obtain ⟨ml2, f2⟩ := r2
+    obtain ⟨hc1, hc2⟩ := hc
+    dsimp only at hc1 hc2 ⊢
+    subst hc2
+    cases f1
+    · simp only [Bool.false_eq_true, ↓reduceIte]
+      obtain ⟨ev, s1, s1', h1, h2, hs⟩ := rsim_cases (ihc part m { st with ml := ml1 } { st' with ml := ml2 } ⟨hc1, h.2⟩)
+      rw [h1, h2]
+      cases ev
+      · exact ihr part m s1 s1' hs
+      · exact ⟨rfl, hs⟩
+      · exact ⟨rfl, hs⟩
+    · simp only [↓reduceIte]
+      exact ⟨rfl, hc1, h.2⟩
+  | all lno => intro part m st st' h; simp only [eval]; exact ⟨rfl, h⟩
+  | attachment lno e ih =>
+    intro part m st st' h
+    simp only [eval]
+    cases getAttachments m with
+    | none => exact ⟨rfl, h⟩
+    | some parts => exact loop_sim root e ih part parts 0 st st' h
+  | attBlock lno e ih =>
+    intro part m st st' h
+    simp only [eval]
+    cases getAttachments m with
+    | none => exact ⟨rfl, h⟩
+    | some parts => exact loopB_sim root e ih part parts 0 .nomatch st st' h
+  | body lno p =>
+    intro part m st st' h
+    simp only [eval]
+    cases getBody m with
+    | none => exact ⟨rfl, h⟩
+    | some b => exact exprRegexec_sim ha .body lno part p _ b h
+  | date lno field cmp age =>
+    intro part m st st' h
+    have tail : ∀ (tim : Int) (date : Bytes), RSim
+        (if (!dateMatches cmp (↑age) e2.now tim) = true then (Tri.nomatch, st)
+          else exprRegexec e1 MType.date lno part { src := [46, 42] } (ofString "Date") date st)
+        (if (!dateMatches cmp (↑age) e2.now tim) = true then (Tri.nomatch, st')
+          else exprRegexec e2 MType.date lno part { src := [46, 42] } (ofString "Date") date st') := by
+      intro tim date
+      by_cases hd : (!dateMatches cmp (↑age) e2.now tim) = true
+      · simp only [hd, ↓reduceIte]; exact ⟨rfl, h⟩
+      · simp only [hd, Bool.false_eq_true, ↓reduceIte]
+        exact exprRegexec_sim ha .date lno part _ _ _ h
+    cases field <;> simp only [eval] <;> rw [ha.now]
+    · rw [ha.strptime, ha.zoneName]
+      cases getHeader1 m (ofString "Date") with
+      | none => exact ⟨rfl, h⟩
+      | some d =>
+        dsimp only
+        cases timeParse e2.strptime e2.zoneName d with
+        | none => exact ⟨rfl, h⟩
+        | some t => exact tail t d
+    all_goals
+      rw [ha.fileTime]
+      rcases e2.fileTime _ with _ | ⟨t, s⟩
+      · exact ⟨rfl, h⟩
+      · exact tail t s
+  | header lno names p =>
+    intro part m st st' h
+    simp only [eval]
+    exact keys_sim ha lno p part m names st st' h
+  | new lno =>
+    intro part m st st' h
+    simp only [eval]
+    rw [ha.path]
+    exact ⟨rfl, h⟩
+  | old lno =>
+    intro part m st st' h
+    simp only [eval]
+    rw [ha.path, h.2]
+    by_cases hf : flagsIsSet (if (part == 0) = true then st'.flags else MFlags.empty) 83 = true
+    · simp only [hf, ↓reduceIte]; exact ⟨rfl, h⟩
+    · simp only [hf, Bool.false_eq_true, ↓reduceIte]; exact ⟨rfl, h⟩
+  | stat lno path =>
+    intro part m st st' h
+    simp only [eval]
+    have hc := matchesAppend_congr ha h.1 { ty := .stat, lno := lno, part := part, strings := [path] }
+    generalize matchesAppend e1 st.ml _ = r1 at hc
+    generalize matchesAppend e2 st'.ml _ = r2 at hc
+    obtain ⟨ml1, f1⟩ := r1
+    obtain ⟨ml2, f2⟩ := r2
+    obtain ⟨hc1, hc2⟩ := hc
+    dsimp only at hc1 hc2 ⊢
+    subst hc2
+    refine ⟨?_, dropLast_congr hc1, h.2⟩
+    simp only [interpolate_congr (dropLast_congr hc1), ha.isDir]
+  | command lno argv =>
+    intro part m st st' h
+    simp only [eval]
+    have hc := matchesAppend_congr ha h.1 { ty := .command, lno := lno, part := part, strings := argv }
+    generalize matchesAppend e1 st.ml _ = r1 at hc
+    generalize matchesAppend e2 st'.ml _ = r2 at hc
+    obtain ⟨ml1, f1⟩ := r1
+    obtain ⟨ml2, f2⟩ := r2
+    obtain ⟨hc1, hc2⟩ := hc
+    dsimp only at hc1 hc2 ⊢
+    subst hc2
+    refine ⟨?_, dropLast_congr hc1, h.2⟩
+    have : interpolate ml1.dropLast none = interpolate ml2.dropLast none :=
+      funext fun s => interpolate_congr (dropLast_congr hc1) none s
+    simp only [this, ha.command]
+  | move lno path =>
+    intro part m st st' h
+    simp only [eval]
+    cases strlcpyFits PATH_MAX path with
+    | none => exact ⟨rfl, h⟩
+    | some p => exact exprAppend_sim ha _ h _
+  | flag lno subdir =>
+    intro part m st st' h
+    simp only [eval]
+    cases strlcpyFits NAME_MAX1 subdir with
+    | none => exact ⟨rfl, h⟩
+    | some p => exact exprAppend_sim ha _ h _
+  | flags lno fl =>
+    intro part m st st' h
+    simp only [eval]
+    rw [h.2]
+    generalize eval.setAll fl st'.flags false = r
+    obtain ⟨mf, err⟩ := r
+    dsimp only
+    cases err
+    · simp only [Bool.false_eq_true, ↓reduceIte]
+      have hs : Sim { st with flags := mf } { st' with flags := mf } := ⟨h.1, rfl⟩
+      exact exprAppend_sim ha _ hs _
+    · simp only [↓reduceIte]
+      exact ⟨rfl, h.1, rfl⟩
+  | discard lno => intro part m st st' h; simp only [eval]; exact exprAppend_sim ha _ h _
+  | brk lno => intro part m st st' h; simp only [eval]; exact exprAppend_sim ha _ h _
+  | label lno ls => intro part m st st' h; simp only [eval]; exact exprAppend_sim ha _ h _
+  | pass lno => intro part m st st' h; simp only [eval]; exact exprAppend_sim ha _ h _
+  | reject lno => intro part m st st' h; simp only [eval]; exact exprAppend_sim ha _ h _
+  | exec lno si bo argv => intro part m st st' h; simp only [eval]; exact exprAppend_sim ha _ h _
+  | addHeader lno k v => intro part m st st' h; simp only [eval]; exact exprAppend_sim ha _ h _
+
+theorem envAgree_flip (env : Env) : EnvAgree (flipDry env) env := ⟨rfl, rfl, rfl, rfl, rfl, rfl, rfl, rfl⟩
+
+theorem dryrun_same (env : Env) (root : Msg) (e : Expr) (part : Nat) (m : Msg) (st : St) :
+    (eval (flipDry env) root e part m st).1 = (eval env root e part m st).1 ∧
+    eraseKV (eval (flipDry env) root e part m { st with ml := eraseKV st.ml }).2.ml = eraseKV (eval env root e part m st).2.ml ∧
+    (eval (flipDry env) root e part m st).2.flags = (eval env root e part m st).2.flags := by
+  have ha := envAgree_flip env
+  have h1 := eval_sim ha root e part m st st ⟨rfl, rfl⟩
+  have h2 := eval_sim ha root e part m { st with ml := eraseKV st.ml } st ⟨eraseKV_idem _, rfl⟩
+  exact ⟨h1.1, h2.2.1, h1.2.2⟩
+
+end Insp
+
 /-- Evaluation does not depend on the dry-run option, except that a dry run records key and value of
 each pattern match for display: same result, same entries (types, lines, parts, destinations,
 captures), same flag state. -/
 theorem eval_dryrun_same (env : Env) (root : Msg) (e : Expr) (part : Nat) (m : Msg) (st : St) :
     (eval (flipDry env) root e part m st).1 = (eval env root e part m st).1 ∧
     eraseKV (eval (flipDry env) root e part m { st with ml := eraseKV st.ml }).2.ml = eraseKV (eval env root e part m st).2.ml ∧
-    (eval (flipDry env) root e part m st).2.flags = (eval env root e part m st).2.flags := by
-  sorry
+    (eval (flipDry env) root e part m st).2.flags = (eval env root e part m st).2.flags :=
+  Insp.dryrun_same env root e part m st
 
 /-- The `-> destination` lines of `matches_inspect` are, in order, exactly the action entries of the
 list - the entries `matches_exec` iterates over: one line per action entry, naming its label or
@@ -30,9 +577,30 @@ def destLines (stdinMode : Bool) (path : Bytes) (ml : MatchList) : List Bytes :=
        | some l => l.toUTF8.toList
        | none => mh.path) ++ [10]
 
-theorem inspect_lines_are_actions (width : Bytes → Nat) (home confpath : Bytes) (stdinMode : Bool) (path : Bytes) (ml : MatchList) :
+namespace Insp
+
+theorem inspect_go_false (width : Bytes → Nat) (home confpath : Bytes) (stdinMode : Bool) (path : Bytes)
+    (rest pending : MatchList) (out : Bytes) :
+    matchesInspect.go width home confpath stdinMode false path rest pending out =
+      out ++ (destLines stdinMode path rest).flatten := by
+  induction rest generalizing pending out with
+  | nil => simp [matchesInspect.go, destLines]
+  | cons mh more ih =>
+    unfold matchesInspect.go
+    by_cases h : mh.ty.isAction = true
+    · simp [h, ih, destLines]; try (cases mh.ty.info.label <;> rfl)
+    · simp [h, ih, destLines]; try (cases mh.ty.info.label <;> rfl)
+
+theorem lines_are_actions (width : Bytes → Nat) (home confpath : Bytes) (stdinMode : Bool) (path : Bytes) (ml : MatchList) :
     matchesInspect width home confpath stdinMode false path ml = (destLines stdinMode path ml).flatten := by
-  sorry
+  unfold matchesInspect
+  rw [inspect_go_false]; simp
+
+end Insp
+
+theorem inspect_lines_are_actions (width : Bytes → Nat) (home confpath : Bytes) (stdinMode : Bool) (path : Bytes) (ml : MatchList) :
+    matchesInspect width home confpath stdinMode false path ml = (destLines stdinMode path ml).flatten :=
+  Insp.lines_are_actions width home confpath stdinMode path ml
 
 /-- Marker columns for one explanation line: for a value `val`, a non-empty match `[beg, end)` that does
 not begin inside the leading blanks of its line and does not begin at a newline, the text printed is:
@@ -46,6 +614,189 @@ def lineOf (val : Bytes) (beg : Nat) : Bytes × Nat :=
   let before := val.take beg
   let start := beg - (before.reverse.takeWhile (· != 10)).length
   ((val.drop start).takeWhile (· != 10), start)
+
+/-! ### Helper lemmas for `marker_columns`: `lineStart` computes `(lineOf val beg).2`; leading blanks. -/
+namespace Insp
+
+theorem findIdx?_none_all {α} (p : α → Bool) (l : List α) (h : l.findIdx? p = none) : ∀ x ∈ l, p x = false := by
+  induction l with
+  | nil => intro x hx; cases hx
+  | cons a r ih =>
+    rw [List.findIdx?_cons] at h
+    by_cases ha : p a = true
+    · simp [ha] at h
+    · simp only [ha, Bool.false_eq_true, ↓reduceIte, Option.map_eq_none_iff] at h
+      intro x hx
+      rcases List.mem_cons.1 hx with rfl | hx
+      · simpa using ha
+      · exact ih h x hx
+
+theorem findIdx?_some_split {α} (p : α → Bool) (l : List α) (k : Nat) (h : l.findIdx? p = some k) :
+    ∃ A x B, l = A ++ x :: B ∧ A.length = k ∧ p x = true ∧ ∀ a ∈ A, p a = false := by
+  induction l generalizing k with
+  | nil => simp at h
+  | cons a r ih =>
+    rw [List.findIdx?_cons] at h
+    by_cases ha : p a = true
+    · simp only [ha, ↓reduceIte, Option.some.injEq] at h
+      exact ⟨[], a, r, rfl, by simpa using h, ha, by simp⟩
+    · simp only [ha, Bool.false_eq_true, ↓reduceIte, Option.map_eq_some_iff] at h
+      obtain ⟨k', hk', rfl⟩ := h
+      obtain ⟨A, x, B, rfl, hA, hx, hall⟩ := ih k' hk'
+      refine ⟨a :: A, x, B, rfl, by simp [hA], hx, ?_⟩
+      intro b hb
+      rcases List.mem_cons.1 hb with rfl | hb
+      · simpa using ha
+      · exact hall b hb
+
+theorem takeWhile_all {α} (p : α → Bool) (l : List α) (h : ∀ x ∈ l, p x = true) : l.takeWhile p = l := by
+  induction l with
+  | nil => rfl
+  | cons a r ih =>
+    rw [List.takeWhile_cons, h a (List.mem_cons_self ..)]
+    simp only [↓reduceIte]
+    rw [ih (fun x hx => h x (List.mem_cons_of_mem _ hx))]
+
+theorem takeWhile_append_stop {α} (p : α → Bool) (a : List α) (x : α) (b : List α) (hx : p x = false) :
+    (a ++ x :: b).takeWhile p = a.takeWhile p := by
+  induction a with
+  | nil => simp [hx]
+  | cons c r ih =>
+    simp only [List.cons_append, List.takeWhile_cons, ih]
+
+theorem lineStart_gen (val : Bytes) (beg : Nat) (hb : beg < val.length) (hnl : val[beg]? ≠ some 10) :
+    ∀ (fuel lbeg : Nat), lbeg ≤ beg → val.length < fuel + lbeg →
+      lineStart val beg fuel lbeg =
+        beg - (((val.take beg).drop lbeg).reverse.takeWhile (· != 10)).length := by
+  intro fuel
+  induction fuel with
+  | zero => intro lbeg h1 h2; omega
+  | succ n ih =>
+    intro lbeg h1 h2
+    have hseg : (val.take beg).drop lbeg = (val.drop lbeg).take (beg - lbeg) := by
+      rw [List.drop_take]
+    unfold lineStart
+    cases hf : (val.drop lbeg).findIdx? (· == 10) with
+    | none =>
+      dsimp only
+      have hall := findIdx?_none_all _ _ hf
+      rw [hseg, takeWhile_all]
+      · simp; omega
+      · intro x hx
+        have := hall x (List.mem_of_mem_take (List.mem_reverse.1 hx))
+        simpa using this
+    | some k =>
+      dsimp only
+      obtain ⟨A, x, B, hAB, hA, hx, hall⟩ := findIdx?_some_split _ _ _ hf
+      have hx10 : x = 10 := by simpa using hx
+      subst hx10
+      by_cases hgt : lbeg + k > beg
+      · simp only [hgt, ↓reduceIte]
+        rw [hseg, hAB, List.take_append_of_le_length (by omega), takeWhile_all]
+        · simp; omega
+        · intro x hx
+          have := hall x (List.mem_of_mem_take (List.mem_reverse.1 hx))
+          simpa using this
+      · simp only [hgt, ↓reduceIte]
+        have hk : val[lbeg + k]? = some 10 := by
+          have : (val.drop lbeg)[k]? = some 10 := by rw [hAB]; simp [← hA]
+          simpa using this
+        have hne : lbeg + k ≠ beg := by
+          intro he; rw [he] at hk; exact hnl hk
+        rw [ih (lbeg + k + 1) (by omega) (by omega)]
+        have hB : val.drop (lbeg + k + 1) = B := by
+          have : (val.drop lbeg).drop (k + 1) = B := by rw [hAB, ← hA]; simp
+          rw [← this, List.drop_drop, Nat.add_assoc]
+        have e1 : (val.take beg).drop (lbeg + k + 1) = B.take (beg - (lbeg + k + 1)) := by
+          rw [List.drop_take, hB]
+        have e2 : (val.take beg).drop lbeg = A ++ 10 :: B.take (beg - (lbeg + k + 1)) := by
+          rw [hseg, hAB, List.take_append, hA]
+          have : beg - lbeg - k = (beg - (lbeg + k + 1)) + 1 := by omega
+          rw [this, List.take_succ_cons, List.take_of_length_le (by omega)]
+        rw [e1, e2, List.reverse_append, List.reverse_cons, List.append_assoc, List.singleton_append,
+          takeWhile_append_stop _ _ _ _ (by simp)]
+
+theorem lineStart_eq (val : Bytes) (beg : Nat) (hb : beg < val.length) (hnl : val[beg]? ≠ some 10) :
+    lineStart val beg (val.length + 1) 0 = (lineOf val beg).2 := by
+  rw [lineStart_gen val beg hb hnl _ 0 (Nat.zero_le _) (by omega)]
+  simp [lineOf]
+
+theorem isblank_ne_nl (a : UInt8) (h : isblank a = true) : (a != 10) = true := by
+  unfold isblank at h
+  rcases Bool.or_eq_true_iff.1 h with h | h <;> (have := eq_of_beq h; subst this; decide)
+
+theorem nspaces_takeWhile (l : Bytes) : nspaces (l.takeWhile (· != 10)) = nspaces l := by
+  unfold nspaces
+  congr 1
+  induction l with
+  | nil => rfl
+  | cons a r ih =>
+    by_cases ha : (a != 10) = true
+    · simp only [List.takeWhile_cons, ha, ↓reduceIte, ih]
+    · have hb : isblank a = false := by
+        cases hb : isblank a with
+        | false => rfl
+        | true => exact absurd (isblank_ne_nl a hb) ha
+      simp [ha, hb]
+
+theorem drop_nspaces_takeWhile (l : Bytes) :
+    (l.drop (nspaces l)).takeWhile (· != 10) = (l.takeWhile (· != 10)).drop (nspaces l) := by
+  induction l with
+  | nil => rfl
+  | cons a r ih =>
+    by_cases hb : isblank a = true
+    · have hn : nspaces (a :: r) = nspaces r + 1 := by simp [nspaces, hb]
+      rw [hn, List.drop_succ_cons, List.takeWhile_cons, isblank_ne_nl a hb]
+      simp only [↓reduceIte, List.drop_succ_cons]
+      exact ih
+    · have hn : nspaces (a :: r) = 0 := by simp [nspaces, hb]
+      rw [hn]; rfl
+
+theorem marker_cols (width : Bytes → Nat) (hw : Additive width) (home confpath : Bytes) (mh : Match) (key val : Bytes)
+    (beg end_ : Nat) (s : Bytes)
+    (hins : mh.ty.isInspect = true) (hk : mh.key = some key) (hv : mh.val = some val)
+    (hsub : mh.subs = [{ str := s, off := some (beg, end_) }])
+    (hne : beg < end_) (hle : end_ ≤ val.length) (hnl : val[beg]? ≠ some 10)
+    (hlead : (lineOf val beg).2 + nspaces (lineOf val beg).1 ≤ beg) :
+    let line := (lineOf val beg).1
+    let lstart := (lineOf val beg).2
+    let shown := line.drop (nspaces line)
+    let pre := inspectPrefix home confpath mh.lno ++ key ++ [58, 32]
+    let w := width ((val.drop beg).take (end_ - beg))
+    exprInspect width home confpath mh =
+      pre ++ shown ++ [10] ++
+      spaces (pre.length + width ((val.drop (lstart + nspaces line)).take (beg - (lstart + nspaces line)))) ++ [94] ++
+      spaces (w - 2) ++ [36, 10] := by
+  intro line lstart shown pre w
+  have _ := hw
+  have hl0 : lineStart val beg (val.length + 1) 0 = lstart := lineStart_eq val beg (by omega) hnl
+  have hline : line = (val.drop lstart).takeWhile (· != 10) := rfl
+  have hns : nspaces (val.drop lstart) = nspaces line := by rw [hline, nspaces_takeWhile]
+  have hshown : (val.drop (lstart + nspaces line)).takeWhile (· != 10) = shown := by
+    rw [← List.drop_drop, ← hns, drop_nspaces_takeWhile, hns]
+    rfl
+  have hlead' : lstart + nspaces line ≤ beg := hlead
+  have hpre : pre = inspectPrefix home confpath mh.lno ++ key ++ [58, 32] := rfl
+  have hw' : w = width ((val.drop beg).take (end_ - beg)) := rfl
+  clear_value shown pre w
+  clear hline
+  clear_value line lstart
+  have hbne : (beg == end_) = false := by
+    cases h : beg == end_ with
+    | false => rfl
+    | true => have := eq_of_beq h; omega
+  have hlen : (if w ≥ 2 then w - 2 else 0) = w - 2 := by
+    split <;> omega
+  unfold exprInspect
+  simp only [hins, hk, hv, hsub]
+  unfold exprInspect.go
+  simp only [Bool.not_true, Bool.false_eq_true, ↓reduceIte, hbne, exprInspect.go, hl0, hns, hshown, hlead',
+    ← hw', hlen]
+  have hplen : pre.length = key.length + 2 + (inspectPrefix home confpath mh.lno).length := by
+    rw [hpre]; simp only [List.length_append, List.length_cons, List.length_nil]; omega
+  rw [hplen, hpre, List.nil_append]
+
+end Insp
 
 theorem marker_columns (width : Bytes → Nat) (hw : Additive width) (home confpath : Bytes) (mh : Match) (key val : Bytes)
     (beg end_ : Nat) (s : Bytes)
@@ -61,7 +812,7 @@ theorem marker_columns (width : Bytes → Nat) (hw : Additive width) (home confp
     exprInspect width home confpath mh =
       pre ++ shown ++ [10] ++
       spaces (pre.length + width ((val.drop (lstart + nspaces line)).take (beg - (lstart + nspaces line)))) ++ [94] ++
-      spaces (w - 2) ++ [36, 10] := by
-  sorry
+      spaces (w - 2) ++ [36, 10] :=
+  Insp.marker_cols width hw home confpath mh key val beg end_ s hins hk hv hsub hne hle hnl hlead
 
 end Mdsort.Proofs
